@@ -103,6 +103,19 @@ def struct_oracle(ctx):
         e, es = at_offset(eager, data, start, params)
         if not e.ok:
             ctx.tally("struct/eager-rejects")
+            # the bytes do not hold the whole struct. A lazy parse may still return (it skips what it can measure), but a member
+            # whose bytes are missing has no value: reading it fails, the second time like the first
+            l, ls = at_offset(lazy, data, start, params)
+            if l.ok and not nested:
+                for n in names:
+                    first = call(lambda: l.value[n])
+                    second = call(lambda: l.value[n])
+                    third = call(lambda: getattr(l.value, n))
+                    ctx.record([case, "failed-access", n], not first.ok, ["struct/access-on-short-input/" + ("fails" if not first.ok else "value")])
+                    for later in (second, third):
+                        if first.ok != later.ok or (first.ok and not lib_eq(first.value, later.value)) or (not first.ok and type(first.exc) is not type(later.exc)):
+                            return Failure("C16/lazystruct/access-not-repeatable", "on input that the eager parse rejects, member %s reads %r the first time and %r later | members=%s data=%s" % (
+                                n, first, later, short(members, 400), data.hex()))
             return None
         l, ls = at_offset(lazy, data, start, params)
         decl_once = [h for h in history if h[0] in ("name", "attr", "index")]
@@ -193,6 +206,8 @@ def struct_cases(draw):
         data = draw(st.binary(max_size=20))
     elif draw(st.integers(0, 3)) == 0:
         data = draw(mutated(data, max_ops=1))
+    elif draw(st.integers(0, 5)) == 0 and data:
+        data = data[:draw(st.integers(0, len(data) - 1))]       # truncated
     names = member_names(members)
     nested = draw(st.sampled_from(names)) if names and want_nested else None
     return [members, params, data, draw(st.integers(0, 3)), draw(histories(names)), nested, bool(nested) and draw(st.booleans())]
